@@ -20,10 +20,11 @@ import json
 import common
 from common import Broken
 
-THEOREMS = ["C19_safe_shape", "C19_schedules_current", "C19_pinned_tree_raced"]
+THEOREMS = ["C19_safe_shape", "C19_schedules_current", "C19_pinned_tree_raced", "C19_module_state", "C19_histories"]
 
 INST = """import LspVerif.Props.C19
 import GenConc
+import GenHist
 open LspVerif.Conc
 
 theorem C19_safe_shape : Gen.shape.safe = true := by decide
@@ -31,12 +32,24 @@ theorem C19_safe_shape : Gen.shape.safe = true := by decide
 /-- every number of threads, every registry size, every schedule -/
 theorem C19_schedules_current (K : Nat) (sched : List Nat) :
     (∀ t, ((run Gen.shape K init sched).th t).raised = false) ∧
-    (∀ t, ((run Gen.shape K init sched).th t).pc = .done → (run Gen.shape K init sched).flag = true) :=
+    (∀ t, ((run Gen.shape K init sched).th t).pc = .done →
+      (run Gen.shape K init sched).flag = true ∧ (run Gen.shape K init sched).allResolved = true) :=
   C19_schedules Gen.shape C19_safe_shape K sched
 
 /-- the unsynchronised section of the pinned tree raced (kept as the negation witness) -/
 theorem C19_pinned_tree_raced : ((run unlockedShape 1 init [0, 0, 1, 1, 1, 1, 1, 0]).th 0).raised = true := unlocked_races
 
+/-- the two modules keep no state besides the resolved-once flag, and every hook closure captures only the converter it is
+    registered on and local helper functions (scan regenerated from converters.py / _hooks.py) -/
+theorem C19_module_state : Gen.hist.ok = true := by decide +kernel
+
+/-- hence (model of a creation justified by `C19_module_state`): any history of earlier creations, any configurations -/
+theorem C19_histories {Cfg Conv : Type} (regs : Cfg → Conv) (hist : List Cfg) (cfg : Cfg) :
+    (LspVerif.Hist.create regs cfg (LspVerif.Hist.after regs hist {})).1 = (LspVerif.Hist.create regs cfg {}).1 :=
+  LspVerif.Hist.history_independent regs hist cfg {}
+
+#print axioms C19_module_state
+#print axioms C19_histories
 #print axioms C19_safe_shape
 #print axioms C19_schedules_current
 #print axioms C19_pinned_tree_raced
@@ -49,16 +62,23 @@ def run(ctx):
                 "creation kinds + seeded longer + many fresh; each in a fresh process; distinct = distinct schedule / history")
     ctx.trusted += ["translator x_conc.py (AST pattern of a 15-line function -> Shape)",
                     "thread model: yield points = Python line boundaries in the traced frames and dict-iteration steps; single dict operations atomic (GIL)"]
-    ctx.assumptions += ["histories / configurations are decided by the oracle on the real code, not by a Lean theorem (register_hooks touches only its argument and the resolved-once state: not modelled)"]
+    ctx.trusted += ["scanner x_hist.py (module-level bindings, globals, caches, non-local writes, closure captures of converters.py / _hooks.py)"]
+    ctx.assumptions += ["histories: the Lean statement is about a creation modelled as a function of its argument and the resolved-once flag; that model is justified by the kernel-checked scan "
+                        "(no other module state, closures capture only the converter) - state kept inside cattrs itself is not scanned; the history oracle runs the real code"]
     problems = []
     p = common.run_py(common.VERIF / "tools/extract/x_conc.py", check=False)
     if p.returncode != 0:
         problems.append("x_conc: " + p.stderr.strip()[-600:])
         ctx.obligation("x_conc", False, "translator", p.stderr)
-    else:
+    h = common.run_py(common.VERIF / "tools/extract/x_hist.py", check=False)
+    if h.returncode != 0:
+        problems.append("x_hist: " + h.stderr.strip()[-600:])
+        ctx.obligation("x_hist", False, "translator", h.stderr)
+    if p.returncode == 0 and h.returncode == 0:
         common.write_module(ctx.work, "GenConc", p.stdout)
+        common.write_module(ctx.work, "GenHist", h.stdout)
         common.write_module(ctx.work, "Inst", INST)
-        res = common.lean_compile(ctx.work, [["GenConc"], ["Inst"]])
+        res = common.lean_compile(ctx.work, [["GenConc", "GenHist"], ["Inst"]])
         failed = ctx.add_lean_results(res, theorems_expected={"Inst": THEOREMS})
         for r in failed:
             problems.append(f"{r.name}: {r.out[-800:]}")
